@@ -261,6 +261,10 @@ public:
         if (Lazy) {
           J.attribute("k", "lazy");
           J.attribute("op", Op);
+          // full operator tree for structural (non-dataflow) rules; walkers skip "lz"
+          J.attributeBegin("lz");
+          emitLazyBody(E, MP);
+          J.attributeEnd();
           return;
         }
       }
@@ -444,6 +448,37 @@ public:
           if (C)
             emitStmt(C, MP, false);
       });
+    });
+  }
+
+  void emitLazyBody(const Expr *E, const std::vector<std::string> *MP) {
+    J.object([&] {
+      J.attribute("t", typeId(E->getType()));
+      J.attribute("ln", lineOf(E->getExprLoc()));
+      if (const auto *BO = dyn_cast<BinaryOperator>(E)) {
+        J.attribute("k", "bin");
+        J.attribute("op", BO->getOpcodeStr());
+        J.attributeBegin("x");
+        emitExpr(BO->getLHS(), MP, false);
+        J.attributeEnd();
+        J.attributeBegin("y");
+        emitExpr(BO->getRHS(), MP, false);
+        J.attributeEnd();
+      } else if (const auto *CO = dyn_cast<ConditionalOperator>(E)) {
+        J.attribute("k", "cond");
+        J.attributeBegin("c");
+        emitExpr(CO->getCond(), MP, false);
+        J.attributeEnd();
+        J.attributeBegin("x");
+        emitExpr(CO->getTrueExpr(), MP, false);
+        J.attributeEnd();
+        J.attributeBegin("y");
+        emitExpr(CO->getFalseExpr(), MP, false);
+        J.attributeEnd();
+      } else {
+        J.attribute("k", "other");
+        J.attribute("cls", E->getStmtClassName());
+      }
     });
   }
 
